@@ -205,4 +205,36 @@ def stepD (net : Net) : List String → Net × String
   | ["dump", i] => withNode net i fun _ _ n => (net, dump n)
   | _ => (net, "bad-op")
 
-def main : IO Unit := runDriver (#[] : Net) stepD
+/-- driver state with the user sessions of every node beside it -/
+abbrev St := Net × Array Sessions
+
+def showSess (s : Sessions) : String := s!"s=L{if s.loc.isSome then 1 else 0},R{s.rem.length}"
+
+def stepS (st : St) : List String → St × String
+  -- a tick with its time: the session manager's pre_timestep(t), then the node's tick
+  | ["tick", i, t] =>
+    match i.toNat?, t.toInt? with
+    | some k, some t =>
+      let (net', out) := stepD st.1 ["tick", i]
+      let ss := st.2.modify k (fun s => s.pre t)
+      ((net', ss), out ++ " " ++ showSess (ss.getD k {}))
+    | _, _ => (st, "bad-op")
+  | ["sesscfg", i, lt, rt, mx] =>
+    match i.toNat?, lt.toInt?, rt.toInt?, mx.toNat? with
+    | some k, some lt, some rt, some mx =>
+      ((st.1, st.2.modify k (fun s => { s with localTimeout := lt, remoteTimeout := rt, maxRemote := mx })), "ok")
+    | _, _, _, _ => (st, "bad-op")
+  -- `login <node> <index of the user-session-manager among its services> local|remote`
+  | ["login", i, j, how] =>
+    match i.toNat?, j.toNat?, st.1[i.toNat?.getD 0]? with
+    | some k, some j, some (_, n) =>
+      let r := (st.2.getD k {}).login (usmCanPerform n j) (how == "remote")
+      ((st.1, st.2.modify k (fun _ => r.1)), s!"{if r.2 then "ok" else "refused"} {showSess r.1}")
+    | _, _, _ => (st, "bad-op")
+  | line =>
+    let (net', out) := stepD st.1 line
+    -- a node was added: give it a session manager
+    let ss := if net'.size > st.2.size then st.2.push {} else st.2
+    ((net', ss), out)
+
+def main : IO Unit := runDriver ((#[], #[]) : St) stepS
